@@ -290,7 +290,7 @@ def chk_{name}({args}):
           pre=["0 <= n <= 2", "0 <= k0 < 5 and 0 <= k1 < 5"], timeout=tmo, family=fam2, bounds="str keys by selector, values any int")
     m2.ob("rt_DictStr_json", "n: int, k0: int, k1: int, v0: int, v1: int",
           "ks = sel_ints(n, k0, k1, 0)[:2]\nd = {'s%d' % k: Stub(pick(v, 4)) for k, v in zip(ks, (v0, v1))}\nreturn rt2('DictStr', d, True)",
-          pre=["0 <= n <= 2", "0 <= k0 < 5 and 0 <= k1 < 5", "0 <= v0 < 4 and 0 <= v1 < 4"], timeout=tmo, family=fam2, bounds="json leg: keys and values by selector")
+          pre=["0 <= n <= 2", "0 <= k0 < 5 and 0 <= k1 < 5", "0 <= v0 < 4 and 0 <= v1 < 4"], timeout=tmo * 3, family=fam2, bounds="json leg: keys and values by selector")
     m2.ob("rt_Tuple2", "a: int, k: int", "return rt2('Tuple2', (Stub(a), KStub(pick(k, 5))), False) and rt2('Tuple1', (Stub(a),), False)",
           pre=["0 <= k < 5"], timeout=tmo, family=fam2, bounds="payload any int")
     m2.ob("rt_Optional", "isnone: bool, a: int", "return rt2('Optional', None if isnone else Stub(a), False)", timeout=tmo, family=fam2, bounds="None or any payload")
